@@ -57,7 +57,8 @@ unsigned long vt_nd_u64(void);
 void vt_native_check(int c, const char* name);
 #define VT_CHECK(c, name) vt_native_check((c), name)
 #define VT_COVER(c, name) ((void)(c))
-#define VT_ASSUME(c) ((void)(c))
+void vt_native_assume(int c);
+#define VT_ASSUME(c) vt_native_assume((c))
 unsigned char* vt_alloc_bytes(unsigned long n);
 void vt_free_bytes(unsigned char* p);
 #endif
